@@ -511,12 +511,14 @@ def judge_a(route, method, vv, status, headers, body):
                         cell, vv['id'], status, sorted(exp))))
     if status == 405 or (method == 'OPTIONS' and status in (200, 204)):
         allow = [x.strip().upper() for x in (hd.get('allow') or '').split(',') if x.strip()]
+        # The Allow header is required by RFC 7231 but promised neither by the property nor by
+        # the API documentation: counted in the evidence (note:*), never a violation.
         if not allow:
-            out.append(('allow-missing:%s' % cell, '%s without Allow header' % status))
+            out.append(('note:allow-missing:%s' % cell, '%s without Allow header' % status))
         elif route != UNKNOWN_ROUTE:
             missing = [m for m in route_methods(route, v) if m not in allow]
             if missing:
-                out.append(('allow-incomplete:%s' % cell,
+                out.append(('note:allow-incomplete:%s' % cell,
                             'Allow %r omits %s documented for %s at %s' % (
                                 hd.get('allow'), missing, route, vstr(v))))
     return out
@@ -1404,6 +1406,9 @@ def run(ctx):
                 samples.append({'part': 'B', 'case': c, 'present': res['present'],
                                 'status': res['status']})
         for sig, msg in res['viol']:
+            if sig.startswith('note:'):
+                notes[sig] = notes.get(sig, 0) + 1
+                continue
             ctx.violation(sig, '%s [%s]' % (msg, c['vv']), {
                 'case': c, 'setup': setup_requests(state_spec(c['state'])),
                 'requests': res['reqs'], 'response': res['resp'], 'signature_checked': sig})
